@@ -306,6 +306,70 @@ def run(rep: vk.Report):
                         rep.violation({"kind": "real-solver", "obligation": "solve after updates = solve of the fresh constant model",
                                        "witness": dict(meta, method=meth, live=[a_sol.status.value, a_sol.values],
                                                        fresh=[b_sol.status.value, b_sol.values])}, concrete=True)
+    # ---- what reaches SciPy after updates = what a FRESH problem written with the current values as constants hands over:
+    # the start point, the objective / gradient and EVERY constraint (also those that mention parameters only), compared at the seam
+    from optyx import Variable as _Vs, Parameter as _Ps
+    seam_cmp = seam_bad = 0
+    def seam_of(Pr, meth):
+        with stubs.Seams(minimize_script=[lambda call: stubs.mres(x=call["x0"], fun=0.0)] * 2) as S_, warnings.catch_warnings():
+            warnings.simplefilter("ignore")
+            try:
+                Pr.solve(method=meth)
+            except Exception as ex:
+                return {"raised": type(ex).__name__}
+        if not S_.minimize_calls:
+            return {"route": "no minimize call"}
+        c_ = S_.minimize_calls[0]
+        probe = np.array([0.75 + 0.5 * k_ for k_ in range(len(c_["x0"]))])
+        with np.errstate(all="ignore"):
+            cons_ = []
+            for d_ in (c_["constraints"] or ()):
+                if isinstance(d_, dict):
+                    cons_.append([d_["type"], round(float(d_["fun"](probe)), 9), np.round(np.asarray(d_["jac"](probe), dtype=float).reshape(-1), 9).tolist()])
+            return {"x0": np.round(np.asarray(c_["x0"], dtype=float), 12).tolist(), "fun": round(float(c_["fun"](probe)), 9),
+                    "jac": None if c_["jac"] is None else np.round(np.asarray(c_["jac"](probe), dtype=float), 9).tolist(),
+                    "constraints": sorted(cons_, key=repr)}
+    for trial in range(12 if rep.tier == "quick" else 200):
+        r = random.Random(rng.random())
+        xs, ys = _Vs("xs", lb=-4.0, ub=6.0), _Vs("ys", lb=-4.0, ub=6.0)
+        d_, cap, kq = _Ps("d", 3.0), _Ps("cap", 5.0), _Ps("kq", 2.0)
+        fam = trial % 4
+        if fam == 0:
+            obj = (xs - d_) ** 2 + (ys - 1) ** 2
+            cons = [xs <= cap, d_ <= cap, kq * xs + ys <= 10]
+        elif fam == 1:
+            obj = (xs ** 2 - 1) ** 2 + d_ * xs + ys ** 2          # double well: the start point matters
+            cons = [xs + ys <= cap]
+        elif fam == 2:
+            obj = kq * xs ** 2 + xs * ys + ys ** 2 - d_ * xs
+            cons = [cap >= d_, (xs - ys).eq(d_ - cap), d_ * 1.0 >= 0.5]
+        else:
+            obj = (xs - d_) ** 2 + kq * (ys - cap) ** 2
+            cons = [d_ - cap <= 0, xs >= d_ - 10]
+        P = Problem().minimize(obj).subject_to(cons)
+        meth = r.choice(["SLSQP", "SLSQP", "trust-constr", "L-BFGS-B"] if fam != 1 else ["SLSQP", "L-BFGS-B"])
+        if meth == "L-BFGS-B":
+            P = Problem().minimize(obj)
+            cons = []
+        seam_of(P, meth)                                   # first build
+        updates = [("d", 8.0), ("cap", 2.0), ("d", 1.0), ("kq", -1.5), ("cap", 9.0), ("d", -0.3)]
+        r.shuffle(updates)
+        hist_ = []
+        for nm_, val_ in updates[:r.randint(1, 4)]:
+            {"d": d_, "cap": cap, "kq": kq}[nm_].set(val_)
+            hist_.append((nm_, val_))
+            live = seam_of(P, meth)
+            F = Problem().minimize(fresh_with_constants(obj))
+            for c_ in cons:
+                F.subject_to(type(c_)(fresh_with_constants(c_.expr), c_.sense))
+            fresh = seam_of(F, meth)
+            seam_cmp += 1
+            if live != fresh:
+                seam_bad += 1
+                rep.violation({"kind": "seam", "obligation": "after Parameter updates the problem hands SciPy what a fresh problem with the current values as constants hands over",
+                               "witness": {"family": fam, "method": meth, "updates": hist_, "objective": repr(obj)[:200], "constraints": [repr(c_)[:120] for c_ in cons],
+                                           "differences": {k_: [live.get(k_), fresh.get(k_)] for k_ in set(live) | set(fresh) if live.get(k_) != fresh.get(k_)}}},
+                              concrete=True)
     kinds_checked, kinds_bad = value_kinds(rep)
     nfails, nund = common.run_classify(IMPORTS, "", NUM_TYPE, nums, NUM_CHECKER) if nums else ([], [])
     for i in nfails:
@@ -316,6 +380,8 @@ def run(rep: vk.Report):
         rep.violation({"kind": "numeric", "obligation": "observation after updates within the enclosure of the model under the current valuation",
                        "case": nums[i][:3000], "witness": nmeta[i]}, concrete=True)
     cov = rep.coverage
+    cov["seam_comparisons_live_vs_fresh_constant_model_after_updates"] = seam_cmp
+    cov["seam_disagreements"] = seam_bad
     cov["evaluations"] = len(nums) + solves
     cov["distinct_nontrivial"] = len(set(nums))
     cov["rule"] = ("expressions with parameters as coefficients, offsets, exponents and inside products; everything compiled before a 3-step "
